@@ -118,6 +118,77 @@ CHECKS["C17"] = (
     "DESIGN.md section 4, C17",
 )
 
+CHECKS["C03"] = (
+    "symbolic evaluation of the SQL-building helpers (abstract interpreter with library calls as uninterpreted terms), term-structure comparison, string-shape analysis of LIKE patterns, registry coverage table",
+    "Decides from source, for symbolic filters: every WhereAndFilter field is translated by exactly one registered helper and the registry is iterated (R1); the SQL term each helper "
+    "builds has the stated connective structure and column/model/operator pairing - OR over kinds (plain note = IS NULL, never an IN list), priorities, alternatives and link forms "
+    "(name, name#%, global:ID, ref:RID, zid: of every note of the page, each independently), AND elsewhere, inclusive date bounds with end := start (R2); the negated form of tag, text, "
+    "file, link and existence filters equals the positive form with only the outermost membership/LIKE operator negated, and negated comparisons use the complementary operator under "
+    "`in_` (R3); every LIKE pattern fed by query text escapes backslash, % and _ and passes escape= (R4); DATE/INTEGER/STRING cast tables (R5). A wrong operator, column, connective "
+    "or a both-sides negation changes the term and is reported with the term.",
+    "SQL evaluation over index contents and SQLAlchemy itself are trusted, not modelled.",
+    "DESIGN.md section 4, C03",
+)
+CHECKS["C04"] = (
+    "abstract interpretation of the query listener per grammar alternative over token-shaped abstract strings; exhaustive enumeration of the finite spellings; bounded exploration of parenthesis nestings (listener stack typestate); ATN derivability",
+    "Decides: each where_atom / kind character / group / order / select alternative of the ATN reaches the filter field or enum member it denotes (handlers interpreted per alternative) (R1); "
+    "all 100 spellings Pn / Pn-m denote [n..m] (R2); the short/long/relative date recognisers partition the spec shapes, the unit table d/m/y, sign handling and end=None for tail-less ranges (R3); "
+    "property operator prefix table, value-type inference order, negation bit (R4); over every derivation with up to three levels of parentheses the compiled filter tree equals the derivation's "
+    "nesting (R5); O/G in either order (R6); `prop:<key>` keeps the key, no strip()-as-prefix (R7).",
+    "Identifier texts are abstracted as fixed-length strings over character classes; nesting is explored to depth 3 (stated bound). No renderer exists, so the round trip is not decided.",
+    "DESIGN.md section 4, C04",
+)
+CHECKS["C05"] = (
+    "table agreement over the converter classes, path/dominance rules, affine evaluation of the splice bounds, effect-order rule, allocator alphabet inclusion",
+    "Decides: every field of the domain Note is written to the SQL model and restored from the same column, section/block converters map every child collection both ways (R1); ZIDs are "
+    "assigned before conversion, every ZID-less note gets one and is queued, index body and file line drop a leading word under the same recogniser, every allocatable ZID lexes as a ZID (R2); "
+    "the write-back splice is lines[:s]+X+lines[e:] with s = line_no-1, e-s = number of '\\n' lines of the body, only X[0] changes, split/joined on '\\n' only (R3); message wiring and "
+    "page-write-then-hash-refresh (R4).",
+    "Where in the line the ZID lands and byte-level diffs are value-level (not decided).",
+    "DESIGN.md section 4, C05",
+)
+CHECKS["C06"] = (
+    "decision-table evaluation of the change test, path-order rules, dataflow rule on what reaches removal, provenance rule on hash-map writes",
+    "Decides necessary conditions of incremental == rebuild: the change test is exactly (missing or differs) with safe evaluation order (R1); per page remove < add < commit and removal deletes "
+    "notes, sections, blocks and the page row (R2); names of the old map that are gone from disk must reach removal (R3, known finding); every hash-map write acknowledges only pages this "
+    "command examined (R4, known finding in the write-back); what is stored for a new note matches what a fresh compile would store (R5).",
+    "Equality of index contents over edit histories is not decided.",
+    "DESIGN.md section 4, C06",
+)
+CHECKS["C08"] = (
+    "listener typestate (no handler raises on any error-free tree), path-sensitive non-emptiness/length facts for every index/pop/unpack site in the call-graph slice, guard-discharge rule for strptime, decision tables for the refusal conditions",
+    "Decides: no listener method raises on any event sequence of the grammar (typestate walk over the ATN: asserts, assert_never, None accessors, children indices) and every local index/pop/unpack "
+    "in the slice reachable from walk_zorg_page is dominated by a non-emptiness/length fact or is in the reviewed table; strptime is only reached behind a recogniser that itself try-parses; "
+    "listener failures on error-recovery trees are fenced (R1); no while loop or recursion in the slice (R2); honest flag (R3, known finding pinned by the test data); create/reindex refuse "
+    "exactly has_errors and not whitelisted (and not --update) before committing (R4); parse precedes walk, no note with errors, every reported error recorded (R5).",
+    "Totality of the ANTLR runtime and lexer-level errors are outside.",
+    "DESIGN.md section 4, C08",
+)
+CHECKS["C11"] = (
+    "truth-table evaluation of the stamping condition, field-set rule on Note.__eq__, affine splice rule, effect order, split/join and clock-source agreement rules",
+    "Decides: the stamping site is reached exactly under had-this-ZID-before and changed and not dated-today (all 8 valuations), old notes matched by ZID (R1); Note.__eq__ compares exactly "
+    "body and todo_payload (R2); write-back conservation (R3); page write followed by hash refresh (R4); event queued iff stamped and wired to the page write (R5); the re-stamped index body "
+    "keeps the line structure (R6); index side and file side read the same local clock (R7).",
+    "Histories over several days are value-level; not decided.",
+    "DESIGN.md section 4, C11",
+)
+CHECKS["C12"] = (
+    "abstract interpretation of Note.to_string per NoteType member and of the compiler's prefix handler per token literal; lexer+ATN derivability of the emitted skeleton; symbolic word-list evaluation of the property scan",
+    "Decides: the kind character emitted equals NoteType.value and compiles back to the same member (R1); a priority is emitted for every not-done todo kind (R2); the piece sequence "
+    "kind [' 'Pn] ' ' body NL lexes and derives from the item rule (R3); query results and moved notes render only through to_string (R4); the refreshed .zoq page must end its last item "
+    "with NL (R5, known finding pinned by a test); the headline/bullet property scan skips an optional modify date and an optional ZID, evaluated on all prefix shapes of symbolic words (R6).",
+    "The value-level round trip of arbitrary bodies is not decided (e.g. `x P2 P1 foo`).",
+    "DESIGN.md section 4, C12",
+)
+CHECKS["C13"] = (
+    "effect-order analysis over the handlers with parameter-sensitive may-effect summaries; effect-catalogue exhaustiveness rule",
+    "Decides necessary conditions of crash convergence: a ZID is on disk before it is returned (R1); no hash-map write covering a page precedes that page's commit (R2); a command that "
+    "skips work by hash must not acknowledge pages whose write-back events are still queued (R3, known finding); write-back = page write then hash refresh with no other external effect, "
+    "in particular no glob-visible temporary file (R4); sessions roll back on exit and commits occur only at the enumerated sites (R5).",
+    "Torn writes and actual recovery runs are not decided; these are ordering obligations on every path.",
+    "DESIGN.md section 4, C13",
+)
+
 NOT_YET = {
 }
 
